@@ -363,9 +363,11 @@ pub fn map_op<K: SimK, V: SimV, const C: usize>(m: &mut Map<K, V, C>, cx: &mut C
             if m.len() != 0 || !left.is_empty() || !m.is_empty() {
                 violate("drain-not-empty", format!("after drain() (taken {} of {}, end {:?}) len()={} and iteration yields {} entries", sess.taken, pre.len(), end, m.len(), left.len()));
             }
-            // ... and leaves the container fully reusable: refill it to capacity, look everything up, empty it again
+            // ... and leaves the container fully reusable: refill it to capacity, look everything up,
+            // empty it again. A freshly made container of the same type is the control: only what the
+            // drained one cannot do although a fresh one can is held against drain().
             if *end != End::Forget && !cx.lying {
-                let ok = crate::world::observing(|| {
+                let refill = |m: &mut Map<K, V, C>| -> bool {
                     std::panic::catch_unwind(std::panic::AssertUnwindSafe(|| {
                         let want = if K::ANON { C.min(1) } else { C };
                         let mut good = true;
@@ -382,9 +384,10 @@ pub fn map_op<K: SimK, V: SimV, const C: usize>(m: &mut Map<K, V, C>, cx: &mut C
                         good && m.is_empty()
                     }))
                     .unwrap_or(false)
-                });
+                };
+                let ok = crate::world::observing(|| refill(m) || !refill(&mut Map::new()));
                 if !ok {
-                    violate("drain-not-reusable", format!("after drain() (taken {} of {}, end {:?}) the map cannot be refilled to its capacity {C} and queried", sess.taken, pre.len(), end));
+                    violate("drain-not-reusable", format!("after drain() (taken {} of {}, end {:?}) the map cannot be refilled to its capacity {C} and queried, although a fresh map can", sess.taken, pre.len(), end));
                 }
             }
         }
